@@ -14,9 +14,9 @@ import (
 var timeType = reflect.TypeOf(time.Time{})
 
 type genOpts struct {
-	NoNaN      bool // no NaN anywhere (sort keys)
-	SmallLists bool // lists of at most 5 elements, no long byte strings
-	NoHuge     bool // no 70 KiB strings / 1025-element lists
+	NoNaN           bool // no NaN anywhere (sort keys)
+	SmallLists      bool // lists of at most 5 elements, no long byte strings
+	NoHuge          bool // no 70 KiB strings / 1025-element lists
 	SingleEntryMaps bool // maps hold at most one entry (stream-level comparisons)
 }
 
